@@ -38,6 +38,7 @@ import logging
 logger = logging.getLogger(__name__)
 logger_invalid = logging.getLogger(__name__ + ".invalid")
 
+import re
 import cgi
 
 from itertools import chain
@@ -91,6 +92,9 @@ def _from_soap(in_envelope_xml, xmlids=None, **kwargs):
     return header, body
 
 
+_XML_DECLARATION_RE = re.compile(r'^\s*<\?xml[^>]*\?>')
+
+
 def _parse_xml_string(xml_string, parser, charset=None):
     xml_string = iter(xml_string)
     chunk = next(xml_string, b'')
@@ -112,7 +116,13 @@ def _parse_xml_string(xml_string, parser, charset=None):
         except ValueError as e:
             logger.debug('ValueError: Deserializing from unicode strings with '
                          'encoding declaration is not supported by lxml.')
-            root, xmlids = etree.XMLID(string.encode(charset), parser)
+            if charset is None:
+                # text that was never decoded here (e.g. a collapsed SwA
+                # message): its declaration doesn't describe any bytes.
+                string = _XML_DECLARATION_RE.sub('', string, 1)
+                root, xmlids = etree.XMLID(string, parser)
+            else:
+                root, xmlids = etree.XMLID(string.encode(charset), parser)
 
     except XMLSyntaxError as e:
         logger_invalid.error("%r in string %r", e, string)
